@@ -72,7 +72,14 @@ func (Prop) SelfTest() error {
 }
 
 func (Prop) Rule() string {
-	return "Added dimensions: signer sets whose digest algorithm is switched (SetDigestAlgorithm) between AddSigner calls on one SignedData, within and across key families (13 sets x lengths {0,17,1000} x with/without attributes x both OID sets); ber2der on synthetic DER whose primitive and constructed element lengths sit on every length-encoding boundary (0,1,2,126..129,254..257,65534..65537) at depth 1..3, also inside an indefinite-length wrapper. " +
+	return "Generic dimensions (DESIGN 11.4) applied to the PKCS#7 surface, cases widen/*: " +
+		"cap = capacity classes {cap=len, exact fit for the padded length, one short, len+1, ample; dirty spare bytes; content ending at a PROT_NONE page; nil} of the content argument of every producer (2 PSK entry points, 6 enveloping producers, SignedAndEnvelopedData, SignedData in 6 modes, cfca signing) x 12 content ciphers x lengths {0,1,15,16,17,31,32,33}, record layouts content||key and key||content of the PSK entry points and p7Der||sourceData of the cfca detached verification: no argument is modified, the result does not depend on capacity or layout (writes into the spare capacity behind a content are counted, not judged); " +
+		"len = content lengths around 1,2,4,8,16,32(,64,256,4096) cipher blocks +-1 for every content cipher through EncryptedData (sizes going up, down and interleaved and every ordered pair of 16 length classes on the process-wide cipher objects, results of different calls held and compared at the end), contents that are constant or whose tail is valid PKCS#7 padding, the same lengths through EnvelopedData and SignedAndEnvelopedData for the SM4 modes; SignedData lengths around the SM3/SHA-1/SHA-2 padding boundaries (55..57,63..65,111..113,119..121,127..129,...) with EVERY content position altered (x01, x80), the content shortened and extended by one byte, then the original accepted again on the same object; " +
+		"own = one parsed object used repeatedly (Decrypt / DecryptUsingPSK / DecryptAndVerify / Verify*: every returned slice overwritten including its spare capacity, wrong key or refusing callback or foreign trust store followed by a good call, other recipient, three objects alternately, GetRecipients result overwritten), the encoded message and certificates unchanged afterwards; builder objects: Finish repeatedly with signers / recipients added in between, results overwritten, Detach after an attached Finish, two builders interleaved, content buffer re-used for the next constructor, failing AddSigner / AddSignerChain / SignWithoutAttr / AddRecipient calls at every failure point of those functions (no Signer, unknown digest OID, foreign chain, nil certificate, signed / unsigned attribute that cannot be encoded, RSA key under the SM3 digest = failure at the signing step, refusing key wrap, ECDSA recipient, key-identifier recipient without the extension, invalid recipient version) followed by good ones: the message carries exactly the good signers / recipients; " +
+		"api = EnvelopedData builder with every recipient-identifier version vector over {0,1,2} (1..3 recipients SM2/RSA, legacy key encoding), caller-provided Session (New*EnvelopedDataWithSession, ParseWithSession: the generated content key is the wrapped one, DecryptDataKey receives the blob wrapped for the asking certificate with the entry point's opts and the caller's key handle, a session unwrapping another key never yields the content), recipients addressed by a hashed SubjectKeyIdentifier opened with a certificate of the same key that lacks the extension, SkipCertificates x {AddSigner, AddSignerChain, SignWithoutAttr} alone and mixed (verifier supplies the certificates), SetEncryptionAlgorithm with every OID consistent with key and digest, the SM2-with-SM3 OID as digest algorithm, ECDSA signers on P-384 and P-521 x 4 digests x 6 modes, opaque crypto.Signer / crypto.Decrypter wrappers for all three key families, GetOnlySigner, UnmarshalSignedAttribute, DegenerateCertificate (never verifies), RemoveUnauthenticatedAttributes (still verifies, authenticated parts unchanged), RemoveAuthenticatedAttributes (never verifies for another content), SignedAndEnvelopedData with the digest switched between signers and AddCertificate; " +
+		"ber = ber2der on synthetic DER with multi-octet identifiers (primitive and constructed, every length boundary) and on elements of 2^24-1, 2^24, 2^24+1 content octets; the encrypted content as a constructed encoding of OCTET STRING segments (10 split classes incl. empty segments and one byte per segment, definite and indefinite) must open to the content for EncryptedData, EnvelopedData and SignedAndEnvelopedData x 12 ciphers; the signed content as a constructed OCTET STRING: the single-segment form verifies, no form verifies with another content; " +
+		"e3 = the alteration enumeration (same oracles as below) on seeds the first version lacked: BER-encoded seeds (indefinite lengths with constructed signed content; segmented GCM ciphertext), an EnvelopedData with recipient versions 0,2,1 mixed, the SM2-with-SM3 digest identifier, thorough: P-384 / P-521 signer next to a P-256 one, RSA and ECDSA BER seeds. " +
+		"Added dimensions: signer sets whose digest algorithm is switched (SetDigestAlgorithm) between AddSigner calls on one SignedData, within and across key families (13 sets x lengths {0,17,1000} x with/without attributes x both OID sets); ber2der on synthetic DER whose primitive and constructed element lengths sit on every length-encoding boundary (0,1,2,126..129,254..257,65534..65537) at depth 1..3, also inside an indefinite-length wrapper. " +
 		"E2: full product, every artefact produced by the real library with a deterministic cached PKI (3 families SM2/RSA-2048/ECDSA-P256: root, intermediate, 4 leaves): " +
 		"SignedData = content length {0,1,15,16,17,1000} x mode {attached, detached, noattr-attached, noattr-detached, digest-attr, digest-noattr} x 9 (digest,signature) pairs {SM3-SM2, SHA-1/256/384/512 x RSA, ECDSA} x signer sets {1, 2, 3 (third through AddSignerChain + intermediate), chained-only} " +
 		"x {Verify, VerifyWithChain(root), VerifyWithChainAtTime; foreign trust store must refuse; altered external/attached content must refuse}; " +
@@ -102,6 +109,11 @@ func (Prop) Assumptions() []string {
 		"a private key of ANOTHER intended recipient used with a recipient's certificate is not enumerated as 'non-recipient'",
 		"external digest alteration flips a bit of the first digest byte: ECDSA P-256 uses only the leftmost 256 bits of SHA-384/512 digests, a change in the truncated tail is not detectable by construction",
 		"dispatch tiers: c-default and c-purego on amd64 only",
+		"widen/cap: a write into the spare capacity BEHIND a content argument (PKCS#7 padding in place by the CBC/ECB content ciphers) is counted (content_spare_capacity_written), not judged; what is judged is a changed argument [0:len] of the same call — in particular the key of EncryptUsingPSK / EncryptSMUsingPSK lying directly behind the content in one array",
+		"widen/own: a content slice handed to NewSignedData / NewSignedAndEnvelopedData is NOT overwritten before the last signer was added (these constructors keep a reference, the signature is computed at AddSigner time); the content handed to New*EnvelopedData is overwritten right after the constructor returned; p7.Content of a parsed SignedData is a public field the verifier controls and is not treated as a returned slice; that two Parse calls on one buffer do not alias each other or the buffer is not required",
+		"widen/api: RecipientInfos and SignerInfos are SET OF (DER orders them by encoding): no oracle depends on their order; SetEncryptionAlgorithm is enumerated only with OIDs consistent with key family and digest; the SM2-with-SM3 digest OID only with keys typed *sm2.PrivateKey (an SM2 key typed *ecdsa.PrivateKey is refused by AddSigner with this OID: an error, not judged); the legacy C1C2C3 key encoding only with concrete *sm2.PrivateKey recipients (documented by the type switch); an SM2 recipient key typed *ecdsa.PrivateKey (no crypto.Decrypter) is not enumerated; what RemoveAuthenticatedAttributes leaves behind need not verify (the signature was computed over the attributes): only 'never for another content' is required; what a failing AddSigner leaves in digestAlgorithms is not judged",
+		"widen/ber: the multi-segment constructed form of the SIGNED content is read by the library as its first segment only and is therefore refused at the digest comparison: refusing is all that is required there; for the ENCRYPTED content the library documents the segmented form, so opening to the content is required",
+		"the library's randomness (content keys, IVs, nonces, signatures) is not injectable: no ciphertext or signature bytes are compared against a reference, only the round trip through the real verifier/decrypter and the negative oracles; with a caller-provided Session the content key is deterministic, the IV is not",
 	}
 }
 
@@ -496,6 +508,16 @@ func (Prop) Run(c *engine.Ctx) {
 			envelopeE3(t, "signed-and-enveloped", fmt.Sprintf("%s/%s/%s/%s", p.name, cs.name, setName(s.set), s.rs.name), cs, true, art, content, ops, false)
 		})
 	}
+
+	// ---------------- generic dimensions of DESIGN.md §11.4 applied to the PKCS#7 surface (widen*.go); appended at the
+	// end so that the case indices (= shard assignment) of everything above stay what they were
+	runCapacity(c, getPKI, smOnly)
+	runLengths(c, getPKI, smOnly)
+	runOwnership(c, getPKI, smOnly)
+	runAPI(c, getPKI, smOnly)
+	runOpaqueKeys(c, getPKI, smOnly)
+	runBerVariants(c, getPKI, smOnly)
+	runWidenE3(c, getPKI, smOnly)
 }
 
 // ---------------------------------------------------------------------------------------------
